@@ -364,6 +364,10 @@ func (a *OrderAnalysis) storeOK(mr *MapRange, st *ssa.Store) (bool, string) {
 		if mr.Key != nil && derivesFrom(x.X, mr.Key, 0) {
 			return true, ""
 		}
+		// a field of the element that the loop key selects (s[key].f = ...): distinct keys, distinct elements
+		if ia, ok := x.X.(*ssa.IndexAddr); ok && mr.Key != nil && sameValue(ia.Index, mr.Key) {
+			return true, ""
+		}
 	case *ssa.Alloc:
 		// address-taken local outside the loop
 		if c, ok := st.Val.(*ssa.Const); ok {
